@@ -266,10 +266,9 @@ IF_CLAUSE = ('an image that does not fit between the effective start page (targe
              'flash is refused before anything is sent; otherwise every flash-write command programs, from buffers that hold '
              'exactly the corresponding image pages, only pages inside [start, start + pages of the image) and below the flash '
              'size, every image page is programmed, and a failed flash-write aborts with an exception before anything else is sent')
-MAXPAGES = 6
 
 
-def if_modular_post(c, oks):
+def if_modular_post(c, oks, maxpages):
     """Ghost replay of the calls made on the loader against the contracts of upload_buffer (loads `data` into buffer
     `slot` at `address`) and write_flash (programs flash pages page..page+count-1 from buffers bufpage.. iff it returns True)."""
     trace = c.get('trace')
@@ -308,24 +307,26 @@ def if_modular_post(c, oks):
     c.snapshot('all_ok', prior_ok)
     c.ensure('no-error-when-all-writes-succeed', 'implies(fits and all_ok, raised is None)')
     c.ensure('error-only-from-refusal-or-failed-write', "implies(raised is not None, raised == 'Exception' and (not fits or not all_ok))")
-    for q in range(MAXPAGES):
+    for q in range(maxpages):
         c.ensure('image-page%d-programmed' % q, 'implies(raised is None and %d * ps < len(image), any(o == %d for o in offs))' % (q, q))
 
 
-def _if_modular(ps):
-    @contract('C12', 'internal_flash.modular.ps%d' % ps, [BL + ':Bootloader._internal_flash'], float_mode='R', max_paths=3000, clause=IF_CLAUSE,
-              bounded='page size %d, images of at most %d pages; buffer pages (>= 1), flash pages, start page, override: any 16-bit '
-                      'value; image length and content symbolic' % (ps, MAXPAGES))
+def _if_modular(lens):
+    @contract('C12', 'internal_flash.modular.len%d_%d' % (lens[0], lens[-1]), [BL + ':Bootloader._internal_flash'], max_paths=6000, clause=IF_CLAUSE,
+              bounded='image lengths %d..%d (content symbolic), every page size from 1 to length + 1 and 1024, 65535 (all page sizes >= length '
+                      'give a single page); buffer pages (>= 1), flash pages, start page, override, target address: any 16-bit / 8-bit value; '
+                      'every pattern of failing flash-write commands' % (lens[0], lens[-1]))
     def if_modular(c):
+        n = c.choice('n', list(lens))
+        ps = c.choice('ps', list(range(1, n + 2)) + [1024, 65535])
         tname = c.choice('target', ['stm32', 'nrf51'])
         tid = {'stm32': 0xFF, 'nrf51': 0xFE}[tname]
         c.int('addr', 0, 255), c.let('ps', ps), c.int('bp', 1, 65535), c.int('fp', 0, 65535), c.int('sp', 0, 65535)
         has_override = c.choice('has_override', [False, True])
         ov = c.int('override', 0, 65535) if has_override else None
         c.let('first', ov if has_override else c.get('sp'))
-        image = c.seq('image', 'list')
-        c.require('len(image) >= 1 and len(image) <= %d * ps' % MAXPAGES)
-        oks = [c.bool('ok%d' % i) for i in range(MAXPAGES + 1)]
+        image = c.bytes('image', n)
+        oks = [c.bool('ok%d' % i) for i in range(n + 1)]
         it = iter(oks)
         tinfo = target_info(c, tid)
         cload = c.ext('cload', attrs={'targets': c.dict([(tid, tinfo)]), 'error_code': 0},
@@ -333,9 +334,9 @@ def _if_modular(ps):
         bl = bootloader(c, cload)
         c.reset_trace()
         c.call((bl, '_internal_flash'), artifact(c, image, tname), 1, 1, ov)
-        if_modular_post(c, oks)
+        if_modular_post(c, oks, n)
     return if_modular
 
 
-for _ps in (1, 2, 3, 16, 64):
-    _if_modular(_ps)
+for _lens in ((1, 2, 3, 4, 5), (6, 7), (8,), (12,), (16,)):
+    _if_modular(_lens)
